@@ -460,6 +460,7 @@ func runHistory11(g *cv.Gen, t *Tables, res *hx.Result, st *stores, maxSteps int
 // RunC11 is the driver of property C11.
 func RunC11(seed int64, tier, out string) {
 	hx.Seed(seed)
+	pinWireAddress()
 	g := &cv.Gen{R: rand.New(rand.NewSource(hx.Rng.Int63()))}
 	res := hx.NewResult("C11", seed, tier)
 	histories, maxSteps, perFile := 32, 90, 2
